@@ -12,7 +12,7 @@ RULE = ("l2range/l2alg: every x in [-3, 3000] (30000 thorough) + structured x an
         "explicit (x, y, a); distinct = distinct op lines")
 TRUSTED = ["model side = L2 control-flow models of PcModel/SimpleAlgs.lean (mirror, not an oracle)",
            "harness/ops_lmo{2,3,4}.cpp compile src/lmo/pi_lmoN.cpp into the harness to reach its file-local S2"]
-ASSUMPTIONS = ["S2 ops only with 1 <= y, y*y <= x, c <= min(8, pi(y)) (outside: out-of-bounds reads in the real code)"]
+ASSUMPTIONS = ["S2 ops only with 1 <= y, y*y <= x, 1 <= c <= min(8, pi(y)) (c = 0 only for y = 1); outside: out-of-bounds reads in the real code"]
 
 FIXED = ["legendre", "meissel", "lehmer", "lmo1"]
 LMO = ["lmo2", "lmo3", "lmo4"]
@@ -112,8 +112,8 @@ def streams(ctx):
                 cs = {gen.get_c(y)}
                 if cmax >= 1:
                     cs.add(rng.randint(1, cmax))
-                if rng.random() < 0.1:
-                    cs.add(0)
+                if cmax >= 1:
+                    cs.discard(0)           # c = 0 with pi(y) > 1 is never passed by pi_lmoN (and is UB in pi_lmo4's tree)
                 for c in sorted(cs):
                     cases.append((x, y, c))
         return cases
